@@ -20,7 +20,7 @@
      a choice record for the legal variation, [*_legal] and [known_*].
    Definitions only (executable); proofs are in Meta_proofs.v. *)
 From Calamine Require Import Prelude BiffSst.
-From Calamine Require Col26 Utf16 Ptg NumFmt.
+From Calamine Require Col26 Utf16 Ptg NumFmt FormulaEnv.
 From Coq Require Strings.String Strings.Ascii.
 Open Scope N_scope.
 Set Implicit Arguments.
@@ -117,6 +117,7 @@ Definition s_ref : list N := Eval vm_compute in s2l "#REF"%string.
 Definition s_ref_bang : list N := Eval vm_compute in s2l "#REF!"%string.
 Definition s_empty_rgce : list N := Eval vm_compute in s2l "empty rgce"%string.
 Definition s_unsupported : list N := Eval vm_compute in s2l "Unsupported ptg: "%string.
+Definition s_xlnm : list N := Eval vm_compute in s2l "_xlnm."%string.
 (* ods *)
 Definition o_style : list N := Eval vm_compute in s2l "style:style"%string.
 Definition o_style_name : list N := Eval vm_compute in s2l "style:name"%string.
@@ -677,7 +678,9 @@ Definition xls_lbl (d : bytes) : outcome (str * (option N * str) * bytes) :=
   let cch := nth 3 d 0 in
   do cce <- read_u16 (drop 4 d);
   if len d <? 14 + cce then Err E_LEN_ else
-  let name := read_ustr_nocch (drop 14 d) cch in
+  (* fBuiltin (r.data[0] & 0x20): a one-character id of a built-in name becomes _xlnm.<Name>
+     (FormulaEnv.builtin_fix mirrors the code; commit "fix: xls built-in defined names …") *)
+  let name := FormulaEnv.builtin_fix (nth 0 d 0) (read_ustr_nocch (drop 14 d) cch) in
   let rgce := drop (len d - cce) d in
   do f <- xls_defined_name rgce;
   Ok (name, f, rgce).              (* defined_names.push((name, formula, rgce.to_vec())) *)
@@ -765,10 +768,10 @@ Definition xls_sheet_of (st : xls_state) (i : N) : str :=
    formula goes through the cell-formula decoder, with the names of every Lbl record at hand;
    what parse_formula rejects keeps the rendering of its first token:
      let mut cpf = (rgce.len() as u16).to_le_bytes().to_vec(); cpf.extend_from_slice(&rgce);
-     if let Ok(full) = parse_formula(&cpf, &fmla_sheet_names, &lbl_names, &xtis, &encoding) { return (name, full) } *)
+     if let Ok(full) = parse_formula(&cpf, &fmla_sheet_names, &lbl_names, &xtis, &encoding, None) { return (name, full) } *)
 Definition xls_formula_env (st : xls_state) : Ptg.xls_env :=
   Ptg.Build_xls_env (map (fun pm => Ptg.quote_sheet_name (m_name (snd pm))) (xg_sheets st))
-                    (map (fun nf => fst (fst nf)) (xg_names st)) (xg_xtis st).
+                    (map (fun nf => fst (fst nf)) (xg_names st)) (xg_xtis st) None.
 
 Definition xls_first_token_text (st : xls_state) (f : option N * str) : str :=
   match fst f with
@@ -1339,8 +1342,22 @@ Definition boundsheet (s : meta) (ch : ls_choice) : bytes :=
   frame 133 (boundsheet_body (ls_pos ch) (xls_vis_code (m_vis s) + 4 * ls_hi ch)
                              (xls_kind_code (m_kind s)) (ls_wide ch) (units_of (m_name s))).
 
+(* built-in names (MS-XLS 2.5.114): the logical name is "_xlnm." ++ Name (what xlsx and xlsb store);
+   a Lbl record with fBuiltin (bit 5 of the flags) stores the one-character id instead *)
+Definition builtin_full (id : N) : option str :=
+  match FormulaEnv.builtin_name id with Some b => Some (s_xlnm ++ b) | None => None end.
+Definition builtin_id (n : str) : option N :=
+  find (fun id => match builtin_full id with Some f => str_eqb f n | None => false end)
+       [0; 1; 2; 3; 4; 5; 6; 7; 8; 9; 10; 11; 12; 13].
+Definition is_some (A : Type) (o : option A) : bool := match o with Some _ => true | None => false end.
+(* the code units of the stored name *)
+Definition lbl_units (n : str) (ch : ln_choice) : list N :=
+  if N.testbit (ln_flags ch) 5
+  then match builtin_id n with Some id => [id] | None => units_of n end
+  else units_of n.
+
 Definition lbl_body (n : str * xref) (ch : ln_choice) : bytes :=
-  let us := units_of (fst n) in
+  let us := lbl_units (fst n) ch in
   let rgce := xref_rgce (snd n) in
   le16 (ln_flags ch) ++ [ln_key ch; len us] ++ le16 (len rgce) ++ [0; 0] ++ le16 (ln_itab ch)
   ++ [0; 0; 0; 0] ++ b2n (ln_wide ch) :: seg_bytes (ln_wide ch) us ++ rgce.
@@ -1388,7 +1405,9 @@ Definition spec_xti_sheet (sheets : list meta) (xtis : list (N * N * N)) (i : N)
 Definition ln_legal (nxti : N) (n : str * xref) (ch : ln_choice) : bool :=
   name_ok (fst n) && (len (units_of (fst n)) <=? 255) && wide_ok (ln_wide ch) (fst n)
   && xref_ok (snd n) && (xref_ixti (snd n) <? nxti)
-  && (ln_flags ch <? 65536) && (ln_key ch <? 256) && (ln_itab ch <? 65536).
+  && (ln_flags ch <? 65536) && (ln_key ch <? 256) && (ln_itab ch <? 65536)
+  (* fBuiltin is set exactly on records that store a built-in id *)
+  && (negb (N.testbit (ln_flags ch) 5) || is_some (builtin_id (fst n))).
 
 Definition xls_xti_legal (nsheets : N) (x : N * N * N) : bool :=
   (fst (fst x) <? 65536) && (snd (fst x) <? nsheets) && (snd (fst x) <? 32768) && (snd x <? 65536).
